@@ -24,9 +24,9 @@ import (
 var logOffset int64
 
 func plan(tier string, seed int64) []driver.Case {
-	seeds := 12
+	seeds := 40
 	if tier == "thorough" {
-		seeds = 150
+		seeds = 400
 	}
 	rng := rand.New(rand.NewSource(seed))
 	var cases []driver.Case
@@ -336,7 +336,7 @@ func runCase(c driver.Case) driver.Result {
 			res.More = append(res.More, f)
 		}
 	}
-	if res.Verdict == driver.Held && c.Int("seed")%50 == 0 {
+	if res.Verdict == driver.Held && strings.HasSuffix(c.ID, "/0") {
 		res.Sample = map[string]any{"scenario": c.Get("kind") + "/" + c.Get("target"), "library_operations_issued": ops, "race_reports": 0}
 	}
 	return res
